@@ -1,6 +1,7 @@
 package fam
 
 import (
+	"fmt"
 	"regexp"
 	"sort"
 	"strings"
@@ -78,6 +79,71 @@ func SibIssues(fm *FileModel) []Issue {
 			}
 			out = append(out, Issue{Rule: "A-SIB", Construct: "JSON and YAML unmarshalers differ: " + placeholderRE(la) + "  vs  " + placeholderRE(lb),
 				Msg: "type " + r + ": UnmarshalJSON and UnmarshalYAML differ beyond the decode call; first difference: JSON `" + la + "` / YAML `" + lb + "`"})
+		}
+	}
+	return out
+}
+
+// tagBinding reads one struct tag the way its library does: the key it binds, whether the field is skipped, and a
+// defect that makes the library refuse the type. Library facts (read from the sources in the module cache):
+// encoding/json — a tag that is exactly "-" skips the field, "-," binds the key "-", unknown options are ignored;
+// yaml.v3 (getStructInfo) — a tag that is exactly "-" skips the field, every option after the first comma must be
+// omitempty, flow or inline, anything else (also the empty option of a trailing comma) fails with "unsupported flag",
+// which Decode reports by panicking.
+func tagBinding(lib, tag, fieldName string) (key string, skipped bool, defect string) {
+	if tag == "-" {
+		return "", true, ""
+	}
+	name, opts, has := strings.Cut(tag, ",")
+	if lib == "yaml" && has {
+		for _, o := range strings.Split(opts, ",") {
+			switch o {
+			case "omitempty", "flow", "inline":
+			default:
+				defect = fmt.Sprintf("yaml.v3 does not know the tag option %q (tag %q): decoding a value of the struct panics with \"unsupported flag\"", o, tag)
+			}
+		}
+	}
+	if name == "" {
+		if lib == "yaml" {
+			name = strings.ToLower(fieldName)
+		} else {
+			name = fieldName
+		}
+	}
+	return name, false, defect
+}
+
+// TagParityIssues (A-TAGPAR): every field that carries both a json and a yaml tag is bound to the same key by both
+// libraries, or skipped by both, and neither tag is one its library refuses.
+func TagParityIssues(fm *FileModel) []Issue {
+	var out []Issue
+	var names []string
+	for n := range fm.Structs {
+		names = append(names, n)
+	}
+	sort.Strings(names)
+	for _, n := range names {
+		for _, f := range fm.Structs[n].Fields {
+			j, hasJ := f.Tags["json"]
+			y, hasY := f.Tags["yaml"]
+			if hasY {
+				if _, _, d := tagBinding("yaml", y, f.Name); d != "" {
+					out = append(out, Issue{Rule: "A-TAGPAR", Construct: "yaml tag with an option yaml.v3 refuses", Msg: fmt.Sprintf("field %s.%s: %s", n, f.Name, d)})
+					continue
+				}
+			}
+			if !hasJ || !hasY {
+				continue
+			}
+			jk, js, _ := tagBinding("json", j, f.Name)
+			yk, ys, _ := tagBinding("yaml", y, f.Name)
+			switch {
+			case js != ys:
+				out = append(out, Issue{Rule: "A-TAGPAR", Construct: "field skipped by one decoder and bound by the other", Msg: fmt.Sprintf("field %s.%s: json tag %q (skipped=%v) and yaml tag %q (skipped=%v)", n, f.Name, j, js, y, ys)})
+			case !js && jk != yk:
+				out = append(out, Issue{Rule: "A-TAGPAR", Construct: "json and yaml tags bind different keys", Msg: fmt.Sprintf("field %s.%s: json binds %q, yaml binds %q", n, f.Name, jk, yk)})
+			}
 		}
 	}
 	return out
